@@ -818,6 +818,22 @@ def check_simplify(ctx):
     news = [n for n in ast.walk(gl) if isinstance(n, ast.Assign) and isinstance(n.targets[0], ast.Subscript) and isinstance(n.value, ast.List) and [norm(e) for e in n.value.elts] == [term]]
     setd = [n for n in ast.walk(gl) if isinstance(n, ast.Call) and isinstance(n.func, ast.Attribute) and n.func.attr == "setdefault"]
     ctx.check(bool(appends) and (bool(news) or bool(setd)), R5, f.key + ":group-members", "every term joins its group", "a term is not added to its group on some branch (its coefficient would be lost)", f"{f.module.relpath}:{gl.lineno}")
+    # ... and no term is left out *before* grouping: the coefficients of like terms are added first and only the sum is compared with
+    # 0 -- a term skipped (or the grouping made conditional) on its own coefficient is lost although many such terms add up
+    joins = appends + news + [n for n in ast.walk(gl) if isinstance(n, ast.Expr) and any(x in setd for x in ast.walk(n))]
+    first_join = min((getattr(n, "lineno", 10**9) for n in joins), default=10**9)
+    skips = [n for n in ast.walk(gl) if isinstance(n, (ast.Continue, ast.Break)) and n.lineno < first_join]
+    from ..astutil import parent_map as _pm
+
+    par = _pm(gl)
+    cond_on_coeff = []
+    for j in joins:
+        x = j
+        while x in par and par[x] is not gl:
+            x = par[x]
+            if isinstance(x, ast.If) and f"{term}.coefficient" in norm(x.test):
+                cond_on_coeff.append(x)
+    ctx.check(not skips and not cond_on_coeff, R5, f.key + ":every-term-grouped", "every term reaches its group; only the summed coefficient of a group is compared with 0", "a term is left out before like terms are added up (`" + short((skips or cond_on_coeff or [gl])[0], 60) + "`): coefficients below the drop threshold are discarded one by one although the like terms' sum is not negligible, so simplify() changes the operator's matrix", f"{f.module.relpath}:{(skips or cond_on_coeff or [gl])[0].lineno}")
     # merge loop
     sx = Expander(f.node)
     merge = [l for l in loops if l is not gl and ("values()" in sx.text(l.iter) or "items()" in sx.text(l.iter))]
